@@ -347,7 +347,7 @@ def nosite(t):
     if t and t[0] == 'call':
         return ('call', t[1], tuple(nosite(a) for a in t[2]))
     if t and t[0] == 'var':
-        return ('var', t[1])
+        return t
     return tuple(nosite(x) if isinstance(x, tuple) else x for x in t)
 
 
@@ -772,3 +772,16 @@ def const_str(t):
         if m:
             return m.group(1).encode().decode('unicode_escape') if '\\' in m.group(1) else m.group(1)
     return None
+
+
+def var_defs(body, name):
+    """[(site, value tree)] of every whole definition (assignment or call result) of the named local(s)"""
+    out = []
+    z = symbolizer(body)
+    for v in body.vars:
+        if v['name'] != name or 'pl' not in v or v['pl']['p']:
+            continue
+        whole, partial = defs_of(body, v['pl']['l'])
+        for d in whole:
+            out.append((d, simplify(z.rvalue(d.rv, 0, ())) if hasattr(d, 'rv') else simplify(z.call(d))))
+    return out
